@@ -16,24 +16,42 @@
 Require Import FstV.Base FstV.Builder FstV.Fst FstV.proofs.BuilderBasics.
 
 (* SetBuilder::insert(k) = raw add(k) and MapBuilder::insert(k, 0) = raw insert(k, 0) agree on
-   every state reachable from a new builder unless k repeats the last key (then the map builder
-   reports DuplicateKey and the set builder accepts the no-op) *)
+   every state reached from a new builder by calls none of which panicked (a Rust panic leaves no
+   builder to talk about), unless k repeats the last key: then the map builder reports
+   DuplicateKey and the set builder returns early, leaving the state untouched *)
 Theorem C15_add_eq_insert0 : forall ty rows cols ops k,
   let b := fst (run_calls (new_builder ty rows cols) ops) in
+  Forall (fun r => r <> Panic) (snd (run_calls (new_builder ty rows cols) ops)) ->
   b_last b <> Some k -> b_add b k = b_insert b k 0.
 Proof. exact add_eq_insert0. Qed.
 
-(* for arbitrary states the statement needs the root not to be final before the first key ... *)
+(* for arbitrary states the statement needs two facts about the unfinished stack, both invariants
+   of the builder: the root is not final before the first key, and the stack spells the last key
+   ([stack_ok]; then a key that passes the ordering check and differs from the last key cannot
+   match the whole stack path, so the duplicate early-return of `add` is not taken) ... *)
 Theorem C15_add_eq_insert0_gen : forall b k,
-  b_last b <> Some k -> (k = [] -> root_fresh b) -> b_add b k = b_insert b k 0.
+  b_last b <> Some k -> (k = [] -> root_fresh b) -> (k <> [] -> stack_ok b) -> b_add b k = b_insert b k 0.
 Proof. exact add_eq_insert0_gen. Qed.
+Theorem C15_stack_ok_calls : forall ops b, stack_ok b ->
+  Forall (fun r => r <> Panic) (snd (run_calls b ops)) -> stack_ok (fst (run_calls b ops)).
+Proof. exact stack_ok_calls. Qed.
+Theorem C15_fcp0_not_full : forall b k,
+  stack_ok b -> lex_cmp (last_key b) k <> Gt -> last_key b <> k -> fcp0 (b_stack b) k <> length k.
+Proof. exact fcp0_not_full. Qed.
 
-(* ... because without it the statement "b_last b <> Some k -> b_add b k = b_insert b k 0" is
-   false: on a (not reachable) state whose root is already final with output 5 and no last key,
-   add("") keeps the 5 (a repeated add keeps the output) while insert("", 0) sets it to 0 *)
+(* ... because without them "b_last b <> Some k -> b_add b k = b_insert b k 0" is false:
+   (1) on a (not reachable) state whose root is already final with output 5 and no last key,
+   add("") keeps the 5 (a repeated add keeps the output) while insert("", 0) sets it to 0;
+   (2) on a (not reachable) state with no last key whose stack already spells "a" with output 5,
+   add("a") takes the duplicate early-return while insert("a", 0) pushes the 5 down *)
 Example add_eq_insert0_needs_fresh_root :
   let b := mkB [] 16 [mkUnf (Node.mkBnode true 5 []) None] (Registry.reg_new 4 2) None 1 0 (0, 0, 0, 0) 3 in
   b_last b <> Some [] /\ b_add b [] <> b_insert b [] 0.
+Proof. vm_compute. split; discriminate. Qed.
+Example add_eq_insert0_needs_stack_ok :
+  let b := mkB [] 16 [mkUnf (Node.empty_bnode false) (Some (97, 5)); mkUnf (Node.empty_bnode true) None]
+               (Registry.reg_new 4 2) None 1 1 (0, 0, 0, 0) 3 in
+  b_last b <> Some [97] /\ b_add b [97] <> b_insert b [97] 0.
 Proof. vm_compute. split; discriminate. Qed.
 
 (* single calls that all succeed, then finish = from_iter / extend_iter / extend_stream *)
@@ -89,12 +107,16 @@ Proof. vm_compute. split; eexists; repeat split. Qed.
 
 Check C15_add_eq_insert0 : forall ty rows cols ops k,
   let b := fst (run_calls (new_builder ty rows cols) ops) in
+  Forall (fun r => r <> Panic) (snd (run_calls (new_builder ty rows cols) ops)) ->
   b_last b <> Some k -> b_add b k = b_insert b k 0.
 Check C15_calls_eq_extend : forall ops b,
   Forall (fun r => r = Ok tt) (snd (run_calls b ops)) -> run_extend b ops = (fst (run_calls b ops), Ok tt).
 Print Assumptions C15_add_eq_insert0.
 Print Assumptions C15_add_eq_insert0_gen.
+Print Assumptions C15_stack_ok_calls.
+Print Assumptions C15_fcp0_not_full.
 Print Assumptions add_eq_insert0_needs_fresh_root.
+Print Assumptions add_eq_insert0_needs_stack_ok.
 Print Assumptions C15_calls_eq_extend.
 Print Assumptions C15_calls_then_finish_eq_build.
 Print Assumptions C15_extend_app.
